@@ -489,6 +489,12 @@ def twin_defs(rng, n):
         # (seed C08-9 handed the ref overrides to the first twin only; the twins have the same size and orders, so which of
         # them the override is converted for does not matter)
         extra.append(adef.mk_ref(f"Twov{sfx}", f"Tw{sfx}", {"kind": "register", "address": 70, "reset_value": rng.randrange(1, 1 << min(size, 30))}))
+        # indexed accessors start from the same constructor as plain ones: a ref with its own reset value AND its own REPEAT,
+        # and a ref with its own reset value to a REPEATED register (seed C08-11 gave every indexed accessor the target's new())
+        extra.append(adef.mk_ref(f"Plrep{sfx}", f"Plain{sfx}", {"kind": "register", "address": 90, "reset_value": rng.randrange(1, 1 << 16),
+                                                                 "repeat": {"count": 2, "stride": 4}}))
+        extra.append(adef.mk_register(f"Many{sfx}", 120, 16, [], byte_order=bo, reset_value=rng.randrange(1, 1 << 16), repeat={"count": 3, "stride": 2}))
+        extra.append(adef.mk_ref(f"Manyov{sfx}", f"Many{sfx}", {"kind": "register", "address": 140, "reset_value": rng.randrange(1, 1 << 16)}))
         cfg = adef.mk_config(register_address_type="u16")
         full = {"config": cfg, "objects": ([act, ina] if act_first else [ina, act]) + extra}
         only = {"config": cfg, "objects": [dict(act, cfg=None)] + extra}
@@ -504,12 +510,22 @@ def l2_main(mods):
         body.append("    {")
         body.append(f"        let mut dev = {m}::Dev::new(Mock::<u16, u8, u8>::new());")
 
+        regs_by_name = {x["name"]: x for x, _ in adef.walk(d["objects"]) if x["kind"] == "register"}
+
+        def idx(o):
+            """"0" for an indexed accessor (own repeat, or a ref that overrides / inherits one), "" otherwise"""
+            if o["kind"] == "ref":
+                rep = o["override"].get("repeat") or (regs_by_name.get(o["target"]) or {}).get("repeat")
+            else:
+                rep = o.get("repeat")
+            return "0" if rep else ""
+
         def emit(objs, path):
             for o in objs:
                 if o["kind"] == "block":
                     emit(o["objects"], path + f".{snake(o['name'])}()")
                 elif o["kind"] in ("register", "ref"):
-                    body.append(f"        dev{path}.{snake(o['name'])}().write(|_| ()).unwrap();")
+                    body.append(f"        dev{path}.{snake(o['name'])}({idx(o)}).write(|_| ()).unwrap();")
         emit(d["objects"], "")
         body.append(f"        for l in &dev.interface.log {{ println!(\"{m} {{}}\", l); }}")
         # the same through write_async: the reset value reaches the wire on the async path too (seed C08-6 started
@@ -521,7 +537,7 @@ def l2_main(mods):
                 if o["kind"] == "block":
                     emit_async(o["objects"], path + f".{snake(o['name'])}()")
                 elif o["kind"] in ("register", "ref"):
-                    body.append(f"        block_on(async {{ dev{path}.{snake(o['name'])}().write_async(|_| ()).await.unwrap(); }});")
+                    body.append(f"        block_on(async {{ dev{path}.{snake(o['name'])}({idx(o)}).write_async(|_| ()).await.unwrap(); }});")
         emit_async(d["objects"], "")
         body.append(f"        for l in &dev.interface.log {{ println!(\"{m}@async {{}}\", l); }}")
         for o, _ in adef.walk(d["objects"]):
